@@ -142,6 +142,13 @@ func (cb *CanonicalBlock) UnmarshalCbor(r io.Reader) error {
 		cb.CRCType = CRCType(crcT)
 	}
 
+	// The CRC type must be known and has to match the presence of a CRC field.
+	if _, err := emptyCRC(cb.CRCType); err != nil {
+		return err
+	} else if hasCRCField := blockLen == 6; hasCRCField != cb.HasCRC() {
+		return fmt.Errorf("array of %d elements does not match CRC type %v", blockLen, cb.CRCType)
+	}
+
 	if b, err := GetExtensionBlockManager().ReadBlock(blockType, r); err != nil {
 		return fmt.Errorf("unmarshalling block type %d failed: %v", blockType, err)
 	} else {
